@@ -819,6 +819,78 @@ pub fn opts(mode: PowMode) -> Options {
 	}
 }
 
+/// (bytes of data file in use, map size) of the LMDB environment a chain in `dir` lives in. The map size is read
+/// from the two meta pages of data.mdb (MDB_meta.mm_mapsize, 32 bytes into each page; it only ever grows).
+pub fn db_usage(dir: &Path) -> Result<(u64, u64), String> {
+	use std::io::{Read, Seek, SeekFrom};
+	let p = dir.join("multi_lmdb").join("data.mdb");
+	let used = std::fs::metadata(&p).map_err(|e| format!("{:?}: {}", p, e))?.len();
+	let mut f = std::fs::File::open(&p).map_err(|e| e.to_string())?;
+	let mut map = 0u64;
+	for off in [32u64, 4096 + 32] {
+		let mut b = [0u8; 8];
+		f.seek(SeekFrom::Start(off)).map_err(|e| e.to_string())?;
+		f.read_exact(&mut b).map_err(|e| e.to_string())?;
+		map = map.max(u64::from_le_bytes(b));
+	}
+	// a never-resized environment records 0 until the first resize: LMDB's default map
+	if map == 0 {
+		map = 10_485_760;
+	}
+	Ok((used, map))
+}
+
+/// Fills the LMDB environment of the chain in `dir` (through a second store handle on the same environment,
+/// in a database of its own that the chain never looks at) until it is `slack` bytes short of the 90 % mark at
+/// which the store enlarges the map: the next few blocks then cross it, so the enlargement — which waits for
+/// every open transaction and blocks new ones — happens in the middle of whatever the case does next, as it
+/// does every now and then on a node that has been running for a while.
+pub fn fill_db_near_resize(dir: &Path, slack: u64) -> Result<(u64, u64), String> {
+	let store = grin_store::Store::new(&dir.to_string_lossy(), None, Some("gvfill"), vec![], None, None).map_err(|e| format!("fill store: {:?}", e))?;
+	let mut k = 0u64;
+	loop {
+		let (used, map) = db_usage(dir)?;
+		let target = (map as f64 * 0.9) as u64;
+		if used + slack >= target {
+			return Ok((used, map));
+		}
+		let gap = target - slack - used;
+		let len = if gap > 512 * 1024 { 60_000 } else if gap > 64 * 1024 { 12_000 } else { 3_000 };
+		let mut b = store.batch().map_err(|e| format!("fill batch: {:?}", e))?;
+		b.put(None, format!("fill{:08}", k).as_bytes(), &vec![0xa5u8; len]).map_err(|e| format!("fill put: {:?}", e))?;
+		b.commit().map_err(|e| format!("fill commit: {:?}", e))?;
+		k += 1;
+		if k > 50_000 {
+			return Err(format!("fill did not converge: used {} map {}", used, map));
+		}
+	}
+}
+
+/// Header-first delivery of a block the world has built (RawBlock::hdr): 1 = process_block_header, 2 =
+/// sync_block_headers with a one-header chunk. The header of a model-valid block must be accepted (a header
+/// that is already known is reported as success by both calls); for a negative block nothing is asserted —
+/// the builder may not have been able to give it sizes and roots — but whatever the call does must leave the
+/// body chain alone, which the caller's scan after the operation checks.
+pub fn header_first(chain: &Chain, block: &Block, hdr: u8, model_valid: bool, mode: PowMode) -> PResult {
+	let r = match hdr {
+		0 => return Ok(()),
+		1 => chain.process_block_header(&block.header, opts(mode)),
+		_ => {
+			let sync_head = chain.header_head().map_err(|e| Fail::new("header_head-err", format!("{:?}", e)))?;
+			chain.sync_block_headers(&[block.header.clone()], sync_head, opts(mode)).map(|_| ())
+		}
+	};
+	if let Err(e) = r {
+		if model_valid {
+			return Err(Fail::new(
+				"valid-header-rejected",
+				format!("header of a model-valid block (h={}) refused when delivered first (mode {}): {}", block.header.height, hdr, err_name(&e)),
+			));
+		}
+	}
+	Ok(())
+}
+
 /// Build, root, seal.
 pub fn make_block(
 	chain: &Chain,
